@@ -232,6 +232,24 @@ Bw6Checks(e) ==
            <<"ATE_LOOP_COUNT_2 = x^2 - x - 1", SDigits(e.ate2)[1] /\ SEq(a2, SPolyEval(<<-1, -1, 1>>, x))>>,
            <<"G1 / G2 have a = 0", NIsZero(e.g1_a) /\ NIsZero(e.g2_a)>> >>
 
+\* Montgomery form B t^2 = s^3 + A s^2 + s of the twisted Edwards curve a x^2 + y^2 = 1 + d x^2 y^2:  A = 2 (a + d) / (a - d),  B = 4 / (a - d)
+MontChecks(e) ==
+    LET C == [kind |-> "te", F |-> TF(e), K |-> Len(e.lv), a |-> e.a, d |-> e.d]
+        amd == FSub(C, e.a, e.d) IN
+    << <<"a # d", amd # FZero(C)>>,
+       <<"MontCurveConfig::COEFF_A (a - d) = 2 (a + d)", FMul(C, e.A, amd) = FMul(C, FInt(C, 2), FAdd(C, e.a, e.d))>>,
+       \* B is only determined up to squares by "birationally equivalent": B (a - d) / 4 must be a non-zero square
+       \* (curves/bls12_377 G1 ships the Montgomery form of a rescaled Edwards model)
+       <<"MontCurveConfig::COEFF_B (a - d) / 4 is a non-zero square", FMul(C, e.B, amd) # FZero(C) /\ TIsSquare(C.F, C.K, FMul(C, FMul(C, e.B, amd), FInv(C, FInt(C, 4))))>> >>
+Ell2Checks(e) ==
+    LET C == [kind |-> "te", F |-> TF(e), K |-> Len(e.lv)] IN
+    << <<"Z is a non-square", ~TIsSquare(C.F, C.K, e.Z)>>,
+       \* Elligator2Map applies the standard rational map (s, t) -> (s / t, (s - 1) / (s + 1)), which lands on a x^2 + y^2 = 1 + d x^2 y^2
+       \* exactly when a = (A + 2) / B and d = (A - 2) / B
+       <<"a B = A + 2 and d B = A - 2", FMul(C, e.a, e.B) = FAdd(C, e.A, FInt(C, 2)) /\ FMul(C, e.d, e.B) = FSub(C, e.A, FInt(C, 2))>>,
+       <<"ONE_OVER_COEFF_B_SQUARE B^2 = 1", e.B # FZero(C) /\ FMul(C, e.one_over_b_sq, FMul(C, e.B, e.B)) = FOne(C)>>,
+       <<"COEFF_A_OVER_COEFF_B B = A", FMul(C, e.a_over_b, e.B) = e.A>> >>
+
 Checks(e) ==
     CASE e.op = "fp" -> FpChecks(e)
       [] e.op = "ext" -> ExtChecks(e)
@@ -242,6 +260,8 @@ Checks(e) ==
       [] e.op = "bn" -> BnChecks(e) \o TwistChecks(e)
       [] e.op = "mnt" -> MntChecks(e)
       [] e.op = "bw6" -> Bw6Checks(e)
+      [] e.op = "mont" -> MontChecks(e)
+      [] e.op = "ell2" -> Ell2Checks(e)
       [] e.op = "reset" -> <<>>
 Failing(e) == LET cs == Checks(e) IN SelectSeq([i \in 1..Len(cs) |-> IF cs[i][2] THEN "" ELSE cs[i][1]] \o <<>>, LAMBDA s : s # "")
 
